@@ -73,6 +73,22 @@ fn shape_case(ctx: &Ctx, rep: &mut Report, case: u64, g: &mut Sm64) {
         rep.violation("init_with_seed not-pure", mon, case, cj);
         return;
     }
+    // independence, exact part: no run of four consecutive entries (row-major) occurs twice in one
+    // result (for independent f64 normals the chance is below 2^-150 per pair of positions)
+    for (name, v) in [("init_with_seed", &a), ("init", &os)] {
+        let flat: Vec<u64> = v.iter().flatten().map(|x| x.to_bits()).collect();
+        if flat.len() >= 8 {
+            let mut seen = std::collections::HashMap::with_capacity(flat.len());
+            for (i, w) in flat.windows(4).enumerate() {
+                if let Some(j) = seen.insert((w[0], w[1], w[2], w[3]), i) {
+                    rep.violation(&format!("{name} entries-repeat: a run of draws occurs twice in one result"), mon, case,
+                        json!({"cfg": cj, "first_at_flat_index": j, "again_at_flat_index": i, "row_length": d}));
+                    return;
+                }
+            }
+            rep.count("results_scanned_for_repeated_runs");
+        }
+    }
     if case % 16 == 0 {
         // pure also when called from several threads at once
         let hs: Vec<_> = (0..4).map(|_| std::thread::spawn(move || { let v: Vec<Vec<f64>> = init_with_seed(n, d, seed); img64(&v) })).collect();
@@ -191,7 +207,40 @@ fn dist_case(ctx: &Ctx, rep: &mut Report, case: u64, g: &mut Sm64) {
     }
 }
 
+/// `init` without a seed: separate calls are independent, so among several hundred thousand small
+/// requests no two results coincide entry for entry (a generator seeded from fewer than ~50 bits
+/// of entropy shows birthday collisions here: 2^32 seeds give ~19 among 400 000 calls).
+fn birthday_case(rep: &mut Report, case: u64) {
+    let mon = "dist";
+    let calls = 400_000usize;
+    let mut seen: std::collections::HashSet<(u64, u64)> = std::collections::HashSet::with_capacity(calls * 2);
+    let mut dup = 0usize;
+    for _ in 0..calls {
+        let key = if case % 2 == 0 {
+            let v: Vec<Vec<f64>> = init(1, 2);
+            (v[0][0].to_bits(), v[0][1].to_bits())
+        } else {
+            let v: Vec<Vec<f32>> = init(2, 2);
+            (((v[0][0].to_bits() as u64) << 32) | v[0][1].to_bits() as u64, ((v[1][0].to_bits() as u64) << 32) | v[1][1].to_bits() as u64)
+        };
+        if !seen.insert(key) {
+            dup += 1;
+        }
+    }
+    rep.evals(calls as u64);
+    rep.count_n("unseeded_small_requests_compared_for_coincidence", calls as u64);
+    if dup > 0 {
+        rep.violation("init separate-calls-return-identical-results (birthday test)", mon, case, json!({"calls": calls, "coinciding_results": dup, "request": if case % 2 == 0 { "init::<f64>(1,2)" } else { "init::<f32>(2,2)" }}));
+        return;
+    }
+    rep.held();
+    rep.distinct(("birthday", case));
+}
+
 pub fn run(ctx: &Ctx, rep: &mut Report) {
+    for c in ctx.case_ids("birthday", 2, 16) {
+        birthday_case(rep, c);
+    }
     for c in ctx.case_ids("shape", 1200, 65_536) {
         let mut g = ctx.rng("shape", c);
         shape_case(ctx, rep, c, &mut g);
